@@ -261,16 +261,15 @@ def rule_spelling(ck, F, X):
 # ---- R6 -------------------------------------------------------------------------------------------
 
 def _name_key(nf):
-    """Stable short descriptor of a name normal form: literal suffixes + sanitiser chain + last field of the root."""
+    """Stable short descriptor of a name normal form: `{}` + literal text for formats, else the last field of the root."""
     if nf[0] == "format":
-        lit = "".join(p[1] for p in nf[1] if p[0] == "lit")
-        holes = [p[1] for p in nf[1] if p[0] == "hole"]
-        return "{" + ",".join(_name_key(h) for h in holes) + "}" + lit
+        return "".join(p[1] if p[0] == "lit" else "{}" for p in nf[1])
     ch, root = og.sanitiser_chain(nf)
     r = og.nf_str(root)
     r = r.rsplit(".", 1)[-1] if "." in r else r
     r = re.sub(r"[^A-Za-z0-9_]", "", r)
-    return "/".join(ch + [r[:30]])
+    case = "pascal:" if any("pascal" in c for c in ch) else "snake:" if any("snake" in c for c in ch) else ""
+    return case + r[:30]
 
 
 def _tokens(nf, star_iters):
